@@ -94,7 +94,7 @@ DEFAULTS = dict(
     delay_open_time=10,
     four_bytes_as=True, route_refresh=True, cisco_route_refresh=True, enhanced_route_refresh=True,
     graceful_restart=True, cisco_multi_session=True, add_path=None,
-    afi_safi=('ipv4',), rib=False, username='admin', password='admin',
+    afi_safi=('ipv4',), rib=False, username='admin', password='admin', md5=None,
 )
 
 
@@ -143,7 +143,7 @@ class Sim(object):
         running = {
             'remote_as': c['remote_as'], 'remote_addr': c['remote_addr'],
             'local_as': c['local_as'], 'local_addr': c['local_addr'],
-            'md5': None, 'afi_safi': afi_safi_list,
+            'md5': c['md5'], 'afi_safi': afi_safi_list,
             'capability': {'local': local_cap, 'remote': {}},
         }
         CONF.bgp.running_config = running
@@ -152,7 +152,7 @@ class Sim(object):
         self.handler.init()
         self.peering = core_factory.BGPPeering(
             myasn=c['local_as'], myaddr=c['local_addr'], peerasn=c['remote_as'],
-            peeraddr=c['remote_addr'], afisafi=afi_safi_list, md5=None, handler=self.handler)
+            peeraddr=c['remote_addr'], afisafi=afi_safi_list, md5=c['md5'], handler=self.handler)
         running['factory'] = self.peering
         self.fsm = self.peering.fsm
         self._client = None
